@@ -62,6 +62,10 @@ def gen_leaf(rng, mode, style, const=None, allow_inf=False):
         dt = DTYPES[mode]
         shape = (256, 256) if mode != "F16x3" else (256, 256, 3)
         scale = 60.0 if mode == "F16x3" else 1000.0
+        if rng.randint(0, 8) == 7:
+            # values near the top of the type's range (IRAF's INDEF is 1.6e38; FLT_MAX is a common blank value): the sum
+            # of four does not fit the type although their mean does
+            scale = {"F32": 2.0e38, "F64": 1.0e300, "F16x3": 4.0e4}[mode]
         # value range per leaf: mostly mixed sign, sometimes entirely negative / entirely positive / straddling zero tightly
         off = (0.2, 0.2, 1.5, 0.0, 0.5)[rng.randint(0, 5)] if style != 3 else 0.0
         arr = (rng.random_sample(shape) * scale - off * scale).astype(dt)
